@@ -98,7 +98,9 @@ func GenNames() ([]string, []GenFamily) {
 		if IsGenName(only) {
 			return []string{only}, []GenFamily{{"single", 1}}
 		}
-		return nil, nil
+		if only != "G" { // VERIF_SCENARIO=G: the whole family and nothing else
+			return nil, nil
+		}
 	}
 	var names []string
 	var fams []GenFamily
